@@ -25,13 +25,22 @@ package k8s
 
 //@ func NewPolicyConnections
 //@   ensures [C02,C01,C06] kept: allKept()
+//@   ensures [C02] freshsep: freshSep(res.AllowedConns) && freshSep(res.DeniedConns) && freshSep(res.PassConns)
 //@   ensures [C02] wf: wfPC(res) && fresh(res) && fresh(res.AllowedConns) && fresh(res.DeniedConns) && fresh(res.PassConns)
 //@   ensures [C02] empty: !res.AllowedConns.AllowAll && !res.DeniedConns.AllowAll && !res.PassConns.AllowAll
 //@         && (forall q v1.Protocol :: {q in res.AllowedConns.AllowedProtocols} !(q in res.AllowedConns.AllowedProtocols))
 //@         && (forall q v1.Protocol :: {q in res.DeniedConns.AllowedProtocols} !(q in res.DeniedConns.AllowedProtocols))
 //@         && (forall q v1.Protocol :: {q in res.PassConns.AllowedProtocols} !(q in res.PassConns.AllowedProtocols))
 
+// frame of an update of pc with x: a well-formed set that shares nothing with pc's three sets nor with x is untouched and stays apart
+//@ pred sep4(t *common.ConnectionSet, pc *PolicyConnections, x *common.ConnectionSet) = sepCS(pc.AllowedConns, t) && sepCS(pc.DeniedConns, t) && sepCS(pc.PassConns, t) && sepCS(x, t)
+//@ pred pcOthersKept(pc *PolicyConnections, x *common.ConnectionSet) = (forall t *common.ConnectionSet :: {t.AllowedProtocols} {old(wfCS(t))}
+//@     (old(wfCS(t)) && old(sep4(t, pc, x))) ==> (sameCS(t) && wfCS(t) && sep4(t, pc, x)))
+//@   && (forall t *common.ConnectionSet, u *common.ConnectionSet :: {old(sep1CS(t, u))}
+//@     (old(wfCS(t)) && old(wfCS(u)) && old(sep4(t, pc, x)) && old(sep4(u, pc, x)) && old(sep1CS(t, u))) ==> sep1CS(t, u))
 //@ func (*PolicyConnections).UpdateWithRuleConns
+//@   ensures [C02] frame: pcOthersKept(pc, ruleConns)
+//@   hint ensures.frame: requires, call*.others, call*.wf
 //@   hint ensures.wf: requires, call*.wf, call*.pts, call*.others
 //@   hint ensures.allow: requires, call*.wf, call*.pts, call*.others
 //@   hint ensures.deny: requires, call*.wf, call*.pts, call*.others
@@ -66,7 +75,21 @@ package k8s
 
 //@ pred sepPCPC(a *PolicyConnections, b *PolicyConnections) = sepPCCS(a, b.AllowedConns) && sepPCCS(a, b.DeniedConns) && sepPCCS(a, b.PassConns)
 
+// frame of merging npc into pc: a well-formed set that shares nothing with the six sets is untouched and stays apart
+//@ pred sep6(t *common.ConnectionSet, pc *PolicyConnections, npc *PolicyConnections) = sepCS(pc.AllowedConns, t) && sepCS(pc.DeniedConns, t) && sepCS(pc.PassConns, t)
+//@     && sepCS(npc.AllowedConns, t) && sepCS(npc.DeniedConns, t) && sepCS(npc.PassConns, t)
+//@ pred pcOthersKept6(pc *PolicyConnections, npc *PolicyConnections) = (forall t *common.ConnectionSet :: {t.AllowedProtocols} {old(wfCS(t))}
+//@     (old(wfCS(t)) && old(sep6(t, pc, npc))) ==> (sameCS(t) && wfCS(t) && sep6(t, pc, npc)))
+//@   && (forall t *common.ConnectionSet, u *common.ConnectionSet :: {old(sep1CS(t, u))}
+//@     (old(wfCS(t)) && old(wfCS(u)) && old(sep6(t, pc, npc)) && old(sep6(u, pc, npc)) && old(sep1CS(t, u))) ==> sep1CS(t, u))
 //@ func (*PolicyConnections).CollectANPConns
+//@   ensures [C02] frame: pcOthersKept6(pc, newAdminPolicyConns)
+//@   hint assert.call2.k2: requires, call1.others, call2.others, call1.wf, call2.wf
+//@   hint assert.call4.k4: w2, k2, call3.others, call4.others, call3.wf, call4.wf
+//@   hint assert.call6.k6: w4, k4, call5.others, call6.others, call5.wf, call6.wf
+//@   hint assert.call7.k7: w6, k6, call7.others, call7.wf
+//@   hint assert.call8.k8: w7, k7, call8.others, call8.wf
+//@   hint ensures.frame: w8, k8, call9.others, call9.wf
 //@   requires wfPC(pc) && wfPC(newAdminPolicyConns) && sepPCPC(pc, newAdminPolicyConns) && disjPC(pc) && disjPC(newAdminPolicyConns)
 //@   modifies common.ConnectionSet.AllowAll { r | true }, common.ConnectionSet.AllowedProtocols { r | true }
 //@   modifies map[v1.Protocol]*common.PortSet { m | true }, common.PortSet.Ports { r | true }, map[string]bool { m | true }
@@ -86,12 +109,14 @@ package k8s
 //@   ensures [C02] disj: disjPC(pc)
 //@   at call 1,2,3,4,5,6,7,8,9 use: wf, pts, others
 //@   after call 2 cut:
+//@     assert k2: pcOthersKept6(pc, newAdminPolicyConns)
 //@     assert w2: wfPC(pc) && wfPC(newAdminPolicyConns) && sepPCPC(pc, newAdminPolicyConns) && pc.AllowedConns == old(pc.AllowedConns) && pc.DeniedConns == old(pc.DeniedConns) && pc.PassConns == old(pc.PassConns)
 //@         && newAdminPolicyConns.AllowedConns == old(newAdminPolicyConns.AllowedConns) && newAdminPolicyConns.DeniedConns == old(newAdminPolicyConns.DeniedConns) && newAdminPolicyConns.PassConns == old(newAdminPolicyConns.PassConns)
 //@     assert s2: samePts(pc.AllowedConns) && samePts(pc.DeniedConns) && samePts(pc.PassConns)
 //@         && samePts(newAdminPolicyConns.AllowedConns) && samePts(newAdminPolicyConns.PassConns)
 //@         && ptsMinus2(newAdminPolicyConns.DeniedConns, pc.AllowedConns, pc.PassConns)
 //@   after call 4 cut:
+//@     assert k4: pcOthersKept6(pc, newAdminPolicyConns)
 //@     assert w4: wfPC(pc) && wfPC(newAdminPolicyConns) && sepPCPC(pc, newAdminPolicyConns) && pc.AllowedConns == old(pc.AllowedConns) && pc.DeniedConns == old(pc.DeniedConns) && pc.PassConns == old(pc.PassConns)
 //@         && newAdminPolicyConns.AllowedConns == old(newAdminPolicyConns.AllowedConns) && newAdminPolicyConns.DeniedConns == old(newAdminPolicyConns.DeniedConns) && newAdminPolicyConns.PassConns == old(newAdminPolicyConns.PassConns)
 //@     assert s4: samePts(pc.AllowedConns) && samePts(pc.DeniedConns) && samePts(pc.PassConns)
@@ -99,6 +124,7 @@ package k8s
 //@         && ptsMinus2(newAdminPolicyConns.DeniedConns, pc.AllowedConns, pc.PassConns)
 //@         && ptsMinus2(newAdminPolicyConns.AllowedConns, pc.DeniedConns, pc.PassConns)
 //@   after call 6 cut:
+//@     assert k6: pcOthersKept6(pc, newAdminPolicyConns)
 //@     assert w6: wfPC(pc) && wfPC(newAdminPolicyConns) && sepPCPC(pc, newAdminPolicyConns) && pc.AllowedConns == old(pc.AllowedConns) && pc.DeniedConns == old(pc.DeniedConns) && pc.PassConns == old(pc.PassConns)
 //@         && newAdminPolicyConns.AllowedConns == old(newAdminPolicyConns.AllowedConns) && newAdminPolicyConns.DeniedConns == old(newAdminPolicyConns.DeniedConns) && newAdminPolicyConns.PassConns == old(newAdminPolicyConns.PassConns)
 //@     assert s6: samePts(pc.AllowedConns) && samePts(pc.DeniedConns) && samePts(pc.PassConns)
@@ -106,6 +132,7 @@ package k8s
 //@         && ptsMinus2(newAdminPolicyConns.AllowedConns, pc.DeniedConns, pc.PassConns)
 //@         && ptsMinus2(newAdminPolicyConns.PassConns, pc.DeniedConns, pc.AllowedConns)
 //@   after call 7 cut:
+//@     assert k7: pcOthersKept6(pc, newAdminPolicyConns)
 //@     assert w7: wfPC(pc) && wfPC(newAdminPolicyConns) && sepPCPC(pc, newAdminPolicyConns) && pc.AllowedConns == old(pc.AllowedConns) && pc.DeniedConns == old(pc.DeniedConns) && pc.PassConns == old(pc.PassConns)
 //@         && newAdminPolicyConns.AllowedConns == old(newAdminPolicyConns.AllowedConns) && newAdminPolicyConns.DeniedConns == old(newAdminPolicyConns.DeniedConns) && newAdminPolicyConns.PassConns == old(newAdminPolicyConns.PassConns)
 //@     assert s7: samePts(pc.AllowedConns) && samePts(pc.PassConns)
@@ -113,6 +140,7 @@ package k8s
 //@         && ptsMinus2(newAdminPolicyConns.AllowedConns, pc.DeniedConns, pc.PassConns)
 //@         && ptsMinus2(newAdminPolicyConns.PassConns, pc.DeniedConns, pc.AllowedConns)
 //@   after call 8 cut:
+//@     assert k8: pcOthersKept6(pc, newAdminPolicyConns)
 //@     assert w8: wfPC(pc) && wfPC(newAdminPolicyConns) && sepPCPC(pc, newAdminPolicyConns) && pc.AllowedConns == old(pc.AllowedConns) && pc.DeniedConns == old(pc.DeniedConns) && pc.PassConns == old(pc.PassConns)
 //@         && newAdminPolicyConns.AllowedConns == old(newAdminPolicyConns.AllowedConns) && newAdminPolicyConns.DeniedConns == old(newAdminPolicyConns.DeniedConns) && newAdminPolicyConns.PassConns == old(newAdminPolicyConns.PassConns)
 //@     assert s8: samePts(pc.PassConns)
@@ -645,7 +673,8 @@ package k8s
 //@ func ruleConnections
 //@   requires realDst(dst) && dyntype(dst, *PodPeer) && validAPs(ports)
 //@   modifies *
-//@   ensures [C02,C03] wf: res1 == nil ==> (wfCS(res0) && fresh(res0) && freshSep(res0)) && allKept()
+//@   ensures [C02,C03] wf: res1 == nil ==> (wfCS(res0) && fresh(res0) && freshSep(res0))
+//@   ensures [C02,C03] kept: allKept()
 //@   ensures [C02,C03] pts: res1 == nil ==> (forall q v1.Protocol, n int :: {iset(res0.AllowedProtocols[q].Ports)[n]} pts(res0, q, n) == anpPortsPts(ports, dst, q, n))
 //@   loop 1:
 //@     invariant idx: ports != nil
@@ -728,13 +757,21 @@ package k8s
 //@ pred pcSame(pc *PolicyConnections) = wfPC(pc) && disjPC(pc) && pc.AllowedConns == old(pc.AllowedConns) && pc.DeniedConns == old(pc.DeniedConns) && pc.PassConns == old(pc.PassConns)
 //@ fun validAction(action string, banp bool) bool = action == "Allow" || action == "Deny" || (action == "Pass" && !banp)
 
+//@ pred sep3(t *common.ConnectionSet, pc *PolicyConnections) = sepCS(pc.AllowedConns, t) && sepCS(pc.DeniedConns, t) && sepCS(pc.PassConns, t)
+//@ pred pcOthersKept3(pc *PolicyConnections) = (forall t *common.ConnectionSet :: {t.AllowedProtocols} {old(wfCS(t))}
+//@     (old(wfCS(t)) && old(sep3(t, pc))) ==> (sameCS(t) && wfCS(t) && sep3(t, pc)))
+//@   && (forall t *common.ConnectionSet, u *common.ConnectionSet :: {old(sep1CS(t, u))}
+//@     (old(wfCS(t)) && old(wfCS(u)) && old(sep3(t, pc)) && old(sep3(u, pc)) && old(sep1CS(t, u))) ==> sep1CS(t, u))
 //@ func updatePolicyConns
+//@   ensures [C02] frame: pcOthersKept3(policyConns)
+//@   hint ensures.frame: requires, call1.wf, call1.kept, call2.frame, call2.wf
 //@   requires wfPC(policyConns) && disjPC(policyConns) && realDst(dst) && dyntype(dst, *PodPeer) && validAPs(rulePorts)
 //@   modifies *
 //@   ensures [C02] wf: res == nil ==> pcSame(policyConns)
 //@   ensures [C02] applied: res == nil ==> (ruleApplied(policyConns, rulePorts, dst, action, isBANPrule, true) && validAction(action, isBANPrule))
 
 //@ func updateConnsIfIngressRuleSelectsPeer
+//@   ensures [C02] frame: pcOthersKept3(policyConns)
 //@   requires wfPC(policyConns) && disjPC(policyConns) && realPeer(src) && realDst(dst) && dyntype(dst, *PodPeer) && validAPs(rulePorts)
 //@   modifies *
 //@   ensures [C02] wf: res == nil ==> pcSame(policyConns)
@@ -742,6 +779,7 @@ package k8s
 //@         exists i int :: {rulePeers[i]} 0 <= i && i < len(rulePeers) && anpFieldsMatch(rulePeers[i].Namespaces, rulePeers[i].Pods, src))
 //@   ensures [C02] valid: (res == nil && (exists i int :: {rulePeers[i]} 0 <= i && i < len(rulePeers) && anpFieldsMatch(rulePeers[i].Namespaces, rulePeers[i].Pods, src))) ==> validAction(action, isBANPrule)
 //@ func updateConnsIfEgressRuleSelectsPeer
+//@   ensures [C02] frame: pcOthersKept3(policyConns)
 //@   requires wfPC(policyConns) && disjPC(policyConns) && realPeer(dst) && realDst(dst) && dyntype(dst, *PodPeer) && validAPs(rulePorts)
 //@   modifies *
 //@   ensures [C02] wf: res == nil ==> pcSame(policyConns)
